@@ -149,6 +149,15 @@ func vc14rtKillVersion(c *internal.FileCache, small, big int) (v int, why string
 	return v, ""
 }
 
+// vc14rtInconclusive reports an inconclusive case.  rapid re-runs a failed case
+// and, if it then passes, drops the case's log ("flaky test"), so the marker
+// the driver looks for is also written to the standard output directly.
+func vc14rtInconclusive(t *rapid.T, f string, a ...any) {
+	msg := fmt.Sprintf(f, a...)
+	_, _ = fmt.Fprintln(os.Stdout, msg)
+	t.Logf("%s", msg)
+}
+
 // TestVerifC14rtKillChild is the body of the child process; it is skipped
 // unless the parent's environment is present.
 func TestVerifC14rtKillChild(t *testing.T) {
@@ -234,7 +243,7 @@ func TestVerifC14rtKill(t *testing.T) {
 		if err = cmd.Start(); err != nil {
 			_ = pr.Close()
 			_ = pw.Close()
-			t.Logf("VERIF-INCONCLUSIVE: cannot start the child: %v", err)
+			vc14rtInconclusive(t, "VERIF-INCONCLUSIVE: cannot start the child: %v", err)
 			t.FailNow()
 		}
 
@@ -292,11 +301,11 @@ func TestVerifC14rtKill(t *testing.T) {
 				t.Fatalf("child: Store failed: %s", childErr)
 			}
 
-			t.Logf("VERIF-INCONCLUSIVE: the child exited before it was ready: %s", stderr.String())
+			vc14rtInconclusive(t, "VERIF-INCONCLUSIVE: the child exited before it was ready: %s", stderr.String())
 			t.FailNow()
 		case <-time.After(60 * time.Second):
 			kill()
-			t.Logf("VERIF-INCONCLUSIVE: the child was not ready within 60 s: %s", stderr.String())
+			vc14rtInconclusive(t, "VERIF-INCONCLUSIVE: the child was not ready within 60 s: %s", stderr.String())
 			t.FailNow()
 		}
 
